@@ -25,12 +25,21 @@ free, undefined behaviour of the real machine code.
      from the working tree that those models rest on (a stolen reference is not
      released again; a field is not released before it is stored again).
 
+ (d) reference neutrality of the C TEXT, path by path (`Generated/RefPaths.lean`,
+     translated from the working tree by `harness/translate/crefpaths.py`): on
+     every control-flow path of 36 functions of the attribute get/set core -
+     including the allocation-failure paths no generator reaches - every
+     reference acquired is released, returned, stolen or stored exactly once,
+     and nothing is released that is not held (`C18_paths_balanced*`).
+
 Only property theorems and their non-vacuity examples live here; helpers are
 in Lemmas/CTabIndex.lean, Lemmas/CTabLedger.lean and Lemmas/CTabRaw.lean.
 -/
 import TraitsVerif.Lemmas.CTabIndex
 import TraitsVerif.Lemmas.CTabLedger
 import TraitsVerif.Lemmas.CTabRaw
+import TraitsVerif.Generated.RefPaths
+import TraitsVerif.Lemmas.RefPaths
 namespace TraitsVerif.Props.C18
 open TraitsVerif TraitsVerif.Generated TraitsVerif.Model.FuncIndex TraitsVerif.Lemmas.CTab
 
@@ -630,6 +639,178 @@ example :
     r2.2.ptr = s0.ptr ∧ [1, 2, 3, 4].map r2.2.rc = [1, 1, 1, 1] ∧
     visibleDying r2.1 [1, 2, 3, 4] = [] ∧
     visibleDying (step s0 (.set 1 7)).1 [1, 2, 3, 4] = [] ∧ (step s0 (.set 1 7)).2.rc 2 = 0 := by
+  decide
+
+/-! ## (d) Every control-flow path of the C text is reference-neutral
+
+`Model/RefLedger` is a hand transcription of `getattr_trait` / `setattr_trait`:
+its `stray` component collects every reference-count change that is not the
+creation or release of a `__dict__` slot, and `C18_ledger_exact` proves that
+`stray` never changes on any modelled path.  The theorems below say the same of
+the C TEXT ITSELF: `harness/translate/crefpaths.py` reads the functions listed
+in `Generated.RefPaths.covered` from the working tree's `ctraits.c`, enumerates
+every control-flow path from entry to `return` (branches on `x == NULL` pruned,
+loops unrolled 0-2 times) and records, per value, the ordered reference events
+(`Model/RefPaths.Ev`).  `pathOk` demands of every value a path touches: no
+release / return / hand-over of a reference the function does not hold at that
+point, no `Py_DECREF` of a NULL, and - at the `return` - nothing held and
+nothing owed.  This covers what the ledger model's generators cannot reach:
+`PyDict_New`, `PyTuple_Pack`, `PyList_New` returning NULL, and every `goto
+error` arm.  The transfers that make a function legitimately non-neutral are
+events of their own (`ret`: the result handed to the caller; `store`: a
+reference put into a struct field or a fresh tuple / list; `take`: the old
+contents of an overwritten field) and the stores are pinned by
+`C18_paths_stores`.
+
+TRUSTED: the API tables of crefpaths.py (which calls return new / borrowed
+references, which steal), that fields keep their value across calls, and the
+unrolling bound. -/
+
+/-- The exceptions, by name: (function, end of the path or `*`, value).  Each is
+a defect of the pinned `ctraits.c` (`C18_paths_known_imbalances_real` proves
+that each occurs):
+* `setattr_property0` never releases the `args` tuple it creates (its siblings
+  `setattr_property1..3` do): one leaked reference to the empty tuple per call;
+* `setattr_delegate` returns from the recursion-limit arm (`++i >= 100`)
+  without releasing `daname` (the value born in `daname2`);
+* `getattr_delegate` / `setattr_delegate` use the result of
+  `trait->delegate_attr_name(...)` without a NULL check: `Py_DECREF` of NULL
+  (and `tp_getattro(delegate, NULL)` before it).  Reachable from Python:
+  `Delegate('d', prefix='*')` on a class whose `__prefix__` is not a `str`
+  makes `delegate_attr_name_class_name` return NULL (`PyUnicode_Concat` raises
+  `TypeError`) and reading the attribute crashes the process. -/
+def knownImbalances : List (String × String × String) := [
+  ("setattr_property0", "*", "args"),
+  ("setattr_delegate", "return delegation_recursion_error(...)", "daname2"),
+  ("setattr_delegate", "return delegation_recursion_error(...)", "daname2~2"),
+  ("setattr_delegate", "*", "NULL:daname"),
+  ("getattr_delegate", "*", "NULL:delegate_attr_name")]
+
+/-- Does the exception `k` speak about path `p`? -/
+def knownApplies (k : String × String × String) (p : Model.RefPaths.Path) : Bool :=
+  k.1 == p.fn && (k.2.1 == "*" || k.2.1 == p.endKind)
+
+/-- Indices (in `Generated.RefPaths.values`) of the values excepted on path `p`. -/
+def knownSkip (p : Model.RefPaths.Path) : List Nat :=
+  (knownImbalances.filter (knownApplies · p)).map (fun k => Generated.RefPaths.values.idxOf k.2.2)
+
+/-- Path `p` is reference-neutral for every value it touches, the named exceptions aside. -/
+def pathOkKnown (p : Model.RefPaths.Path) : Bool := Model.RefPaths.pathOkExcept (knownSkip p) p
+
+set_option maxRecDepth 20000 in
+/-- **Every control-flow path of every covered function of the working tree's
+`ctraits.c` is reference-neutral** (the five named exceptions aside): every
+value it touches ends with nothing held and nothing owed, and no prefix of the
+path releases, returns or gives away a reference the function does not hold.
+Removing a `Py_DECREF` from an error arm, releasing twice (F74: the
+`Py_DECREF(name)` that `setattr_trait` had on its `PyDict_SetItem` failure
+path), dropping an `INCREF` of a copied field, or jumping past a release
+changes the generated table and this proof no longer checks. -/
+theorem C18_paths_balanced : ∀ p ∈ Generated.RefPaths.paths, pathOkKnown p = true :=
+  List.all_eq_true.mp (by decide)
+
+/-! The same, function by function and WITHOUT exceptions, for the nine functions
+of the assignment / read / notification / clone core (a failure names the function). -/
+theorem C18_paths_balanced_setattr_trait :
+    ∀ p ∈ Generated.RefPaths.paths_setattr_trait, Model.RefPaths.pathOk p = true := by decide
+theorem C18_paths_balanced_getattr_trait :
+    ∀ p ∈ Generated.RefPaths.paths_getattr_trait, Model.RefPaths.pathOk p = true := by decide
+theorem C18_paths_balanced_default_value_for :
+    ∀ p ∈ Generated.RefPaths.paths_default_value_for, Model.RefPaths.pathOk p = true := by decide
+theorem C18_paths_balanced_call_notifiers :
+    ∀ p ∈ Generated.RefPaths.paths_call_notifiers, Model.RefPaths.pathOk p = true := by decide
+theorem C18_paths_balanced_trait_clone :
+    ∀ p ∈ Generated.RefPaths.paths_trait_clone, Model.RefPaths.pathOk p = true := by decide
+theorem C18_paths_balanced_trait_set_validate :
+    ∀ p ∈ Generated.RefPaths.paths__trait_set_validate, Model.RefPaths.pathOk p = true := by decide
+theorem C18_paths_balanced_setattr_readonly :
+    ∀ p ∈ Generated.RefPaths.paths_setattr_readonly, Model.RefPaths.pathOk p = true := by decide
+theorem C18_paths_balanced_setattr_event :
+    ∀ p ∈ Generated.RefPaths.paths_setattr_event, Model.RefPaths.pathOk p = true := by decide
+theorem C18_paths_balanced_warn_on_attribute_error :
+    ∀ p ∈ Generated.RefPaths.paths__warn_on_attribute_error, Model.RefPaths.pathOk p = true := by decide
+
+/-- What the executable checker's `true` means, for any path: every value the path
+touches has net balance 0 (`+1` per `new` / `inc` / `take`, `-1` per `dec` /
+`xdec` / `steal` / `ret` / `store`, in any order) and no prefix of the path
+releases, returns or gives away a reference to it that the function does not
+hold.  With the nine theorems above: e.g. every value on every path of
+`setattr_trait` has `balance = 0`. -/
+theorem C18_paths_checker_sound (p : Model.RefPaths.Path) (h : Model.RefPaths.pathOk p = true) :
+    ∀ x ∈ p.evs, Model.RefPaths.balance p.evs x.1 = 0 ∧ Model.RefPaths.neverNegative p.evs x.1 = true := by
+  intro x hx
+  have := List.all_eq_true.mp h x hx
+  exact Lemmas.RefPaths.valueOk_sound p.evs x.1 (by simpa using this)
+
+/-- The functions the path theorems speak about (none was refused for size). -/
+def pathsCovered : List String := [
+  "setattr_trait", "getattr_trait", "default_value_for", "call_notifiers", "trait_clone", "_trait_set_validate",
+  "setattr_readonly", "setattr_event", "_warn_on_attribute_error",
+  "setattr_python", "getattr_delegate", "setattr_delegate", "trait_property_changed",
+  "getattr_property0", "getattr_property1", "getattr_property2", "getattr_property3",
+  "setattr_property0", "setattr_property1", "setattr_property2", "setattr_property3",
+  "setattr_validate_property", "setattr_validate0", "setattr_validate1", "setattr_validate2",
+  "setattr_validate3", "call_class", "getattr_constant", "getattr_event", "getattr_disallow",
+  "setattr_constant", "delegate_attr_name_name", "delegate_attr_name_prefix",
+  "delegate_attr_name_prefix_name", "delegate_attr_name_class_name", "_trait_clone"]
+
+set_option maxRecDepth 20000 in
+/-- Non-vacuity of `C18_paths_balanced`: the table speaks about exactly the 36
+functions above, none refused; every one has at least one path; every function
+of the core that can fail has a path that reports an error and a path that does
+not (the two `void` functions `trait_clone`, `_warn_on_attribute_error` have
+only the latter); and the per-function tables are what `paths` is made of. -/
+theorem C18_paths_cover :
+    Generated.RefPaths.covered = pathsCovered ∧ Generated.RefPaths.refused = [] ∧
+    (pathsCovered.all fun f => Generated.RefPaths.paths.any (·.fn == f)) = true ∧
+    (["setattr_trait", "getattr_trait", "default_value_for", "call_notifiers", "_trait_set_validate",
+      "setattr_readonly", "setattr_event"].all fun f =>
+        Generated.RefPaths.paths.any (fun p => p.fn == f && p.isErr) &&
+        Generated.RefPaths.paths.any (fun p => p.fn == f && !p.isErr)) = true ∧
+    (Generated.RefPaths.paths.all fun p => pathsCovered.contains p.fn) = true ∧
+    (Generated.RefPaths.paths_setattr_trait.all (·.fn == "setattr_trait")) = true ∧
+    Generated.RefPaths.paths_setattr_trait.length ≥ 40 := by
+  decide
+
+/-- The transfers into struct fields, all of them: the fresh `__dict__` of an
+object that had none (three functions), the six fields `trait_clone` copies
+(each `store` is paid by the `Py_XINCREF` that follows, each overwritten value
+`take`n and released - since 86511b4), and the validator `_trait_set_validate`
+stores after `Py_INCREF` (d96fc77) - the third component says where the stored
+value comes from.  A new store of a reference into a field anywhere in the
+covered functions changes this table. -/
+theorem C18_paths_stores :
+    Generated.RefPaths.stores = [
+      ("setattr_trait", "obj->obj_dict", "PyDict_New()"),
+      ("getattr_trait", "obj->obj_dict", "PyDict_New()"),
+      ("trait_clone", "trait->default_value", "source->default_value"),
+      ("trait_clone", "trait->delegate_name", "source->delegate_name"),
+      ("trait_clone", "trait->delegate_prefix", "source->delegate_prefix"),
+      ("trait_clone", "trait->handler", "source->handler"),
+      ("trait_clone", "trait->py_post_setattr", "source->py_post_setattr"),
+      ("trait_clone", "trait->py_validate", "source->py_validate"),
+      ("_trait_set_validate", "trait->py_validate", "PyArg_ParseTuple()"),
+      ("setattr_python", "obj->obj_dict", "PyDict_New()")] := by
+  decide
+
+set_option maxRecDepth 20000 in
+/-- The exceptions are real, not slack: for each entry of `knownImbalances`
+some path of that function (with that end) mishandles exactly that value. -/
+theorem C18_paths_known_imbalances_real :
+    (knownImbalances.all fun k => Generated.RefPaths.paths.any fun p =>
+      knownApplies k p && (Model.RefPaths.offenders p).contains (Generated.RefPaths.values.idxOf k.2.2)) = true := by
+  decide
+
+/-- The checker can say no: `setattr_trait`'s `PyDict_SetItem` failure arm as it
+was before the repair of F74 (`Py_DECREF(name)` of the borrowed name, value 0),
+a leaked tuple (value 1), a double release (value 2), a `Py_DECREF` of NULL;
+and the idiom `PyList_SET_ITEM(l, i, item); Py_INCREF(item);` is accepted. -/
+example :
+    Model.RefPaths.pathOk ⟨"f", 0, "return -1", true, [(0, .dec)]⟩ = false ∧
+    Model.RefPaths.pathOk ⟨"f", 0, "return -1", true, [(1, .new)]⟩ = false ∧
+    Model.RefPaths.pathOk ⟨"f", 0, "return -1", true, [(2, .new), (2, .dec), (2, .dec)]⟩ = false ∧
+    Model.RefPaths.pathOk ⟨"f", 0, "return -1", true, [(3, .bad)]⟩ = false ∧
+    Model.RefPaths.pathOk ⟨"f", 0, "return 0", false, [(4, .store), (4, .inc), (5, .new), (5, .ret)]⟩ = true := by
   decide
 
 end TraitsVerif.Props.C18
